@@ -875,6 +875,18 @@ func ruleEveryFeeder(w *World, r *Run, rule string) {
 			}
 			if good {
 				ad := structArg(fc, fc.Args[2])
+				// a pointer adapter handed to an earlier (opaque) feeder is havocked by the engine afterwards: the adapter's
+				// contents are those of its first use on the path (its fields are written by its constructor only)
+				if a0 := fc.Args[2]; a0 != nil && a0.Kind == "alloc" {
+					for _, pe := range s.Events {
+						if pe.Seq < fc.Seq && pe.Binds != nil {
+							if v, ok := pe.Binds[a0.key]; ok && v.Kind == "structval" {
+								ad = v
+								break
+							}
+						}
+					}
+				}
 				if !(ad != nil && ad.Kind == "structval" && len(ad.Args) == 1 && len(ad.Args[0].Args) == 1 && ad.Args[0].Args[0] == W) {
 					good, why = false, "the feeder is not handed an adapter around the witness that Main created: "+short(fmt.Sprint(ad))
 				}
